@@ -15,6 +15,12 @@ def run(pid, tier, replay):
         if pid in ("C10", "C11", "C17", "C18"):
             from . import purecheck
             return purecheck.check(pid, tier)
+        if pid == "C06":
+            from . import net_c06
+            return net_c06.run(tier)
+        if pid == "C03":
+            from . import net_c03
+            return net_c03.run(tier)
         print(f"unknown property {pid}")
         return 2
     except C.BuildError as e:
